@@ -898,6 +898,66 @@ fn scripts(sp: &Space) -> Vec<Vec<COp>> {
     all
 }
 
+/// Interval alignment for a long-running interval: `interval_at(start, period)` with a start that
+/// lies MORE THAN A SECOND in the past (so that the elapsed time has a seconds part) for every
+/// period of a small grid that does or does not divide one second; the first tick returns `start`,
+/// every later tick an instant `start + k * period` that is not in the past (exact, on `Instant`s).
+pub fn interval_long_running(report: &Report, tier: Tier) {
+    let periods_ms: Vec<u64> = tier.pick(vec![6, 21, 250], vec![6, 7, 21, 50, 250, 300]);
+    let starts_ms: Vec<u64> = tier.pick(vec![1003, 2250], vec![1003, 1500, 2250, 5001]);
+    let mut items = Vec::new();
+    for &p in &periods_ms {
+        for &s in &starts_ms {
+            items.push((p, s));
+        }
+    }
+    report.must_reach("interval_started_more_than_a_second_ago");
+    vcore::par_for_each_n(&items, 8, |_, &(p_ms, s_ms)| {
+        let period = Duration::from_millis(p_ms);
+        let res: Result<(), (String, String)> = vcore::catch(|| {
+            let rt = compio_runtime::Runtime::new().map_err(|e| ("setup".to_string(), format!("{e}")))?;
+            rt.block_on(async {
+                let start = Instant::now() - Duration::from_millis(s_ms);
+                let mut iv = rtime::interval_at(start, period);
+                let first = iv.tick().await;
+                if first != start {
+                    return Err(("real:interval:first-tick-not-at-start".to_string(), format!("interval_at(now-{s_ms}ms, {p_ms}ms): first tick returned start{:+}us", first.duration_since(start).as_micros())));
+                }
+                for k in 1..=3 {
+                    let asked = Instant::now();
+                    let t = iv.tick().await;
+                    let off = t.duration_since(start).as_nanos() % period.as_nanos();
+                    if off != 0 {
+                        return Err((
+                            "real:interval:misaligned:started-more-than-a-second-ago".to_string(),
+                            format!("interval_at(now-{s_ms}ms, {p_ms}ms): tick #{k} returned start+{}us, which is {}us past a multiple of the period", t.duration_since(start).as_micros(), off / 1000),
+                        ));
+                    }
+                    if t < asked {
+                        return Err(("real:interval:tick-in-the-past".to_string(), format!("interval_at(now-{s_ms}ms, {p_ms}ms): tick #{k} returned an instant {}us before it was asked for", asked.duration_since(t).as_micros())));
+                    }
+                    if t.duration_since(asked) > period {
+                        return Err(("real:interval:not-the-next-instant".to_string(), format!("interval_at(now-{s_ms}ms, {p_ms}ms): tick #{k} lies {}us after it was asked for, more than one period", t.duration_since(asked).as_micros())));
+                    }
+                    if Instant::now() < t {
+                        return Err(("real:interval:tick-completed-early".to_string(), format!("interval_at(now-{s_ms}ms, {p_ms}ms): tick #{k} completed before the instant it returned")));
+                    }
+                }
+                Ok(())
+            })
+        })
+        .unwrap_or_else(|pn| Err(("real:interval:panic".to_string(), pn)));
+        report.add_execution(5);
+        report.add_states(1);
+        report.count("interval_started_more_than_a_second_ago", 1);
+        match res {
+            Ok(()) => report.outcome(format!("interval-long|{p_ms}|{s_ms}")),
+            Err((key, what)) => report.violation(Violation { key, what, replay: json!({"engine":"e_c09","mode":"interval-long","period_ms":p_ms,"start_ms_ago":s_ms}) }),
+        }
+    });
+    report.extra("interval_long_running", json!({"periods_ms": periods_ms, "start_ms_ago": starts_ms, "ticks": 4}));
+}
+
 pub fn run(report: &Report, tier: Tier) {
     let sp = match tier {
         Tier::Quick => Space { len: 3, sleeps: vec![-1, 0, 1, 3], timeouts: vec![(1, 3), (3, 1)] },
